@@ -2,4 +2,4 @@ From Coq Require Import Extraction ExtrOcamlBasic NArith ZArith List.
 From LTV.C01 Require Import Model.
 Set Extraction Optimize.
 Extraction Language OCaml.
-Extraction "extracted/c01_model.ml" accept run init fatal piece listed finished leader_pos all_finished attempt_of memN Z.of_N.
+Extraction "extracted/c01_model.ml" accept run init fatal piece listed finished leader_pos all_finished attempt_of memN failc_of Z.of_N.
